@@ -143,7 +143,7 @@ def gen_file_frame(rng):
     import pandas as pd
     n = rng.randint(1, 8)
     cols = {}
-    for nm in rng.sample(['id', 'amount', 'when', 'ünï', 'flag', 'n2', 'resistance_\u2126', 'length_\u212b', 'cafe\u0301_count'], rng.randint(1, 4)):
+    for nm in rng.sample(['id', 'amount', 'when', 'ünï', 'flag', 'n2', 'resistance_\u2126', 'length_\u212b', 'cafe\u0301_count', 'prix\u2028unitaire', 'qt\u0085tot', 'vt\x0bcol'], rng.randint(1, 4)):
         k = rng.choice(['int', 'real', 'date', 'bool', 'int', 'real', 'dateobj'])
         if k == 'int':
             cols[nm] = [rng.randint(-5, 50) for _ in range(n)]
